@@ -2,4 +2,558 @@
 import MelModel.ApplyTx
 import MelModel.Lemmas.Counts
 namespace Mel
+
+/-! ### Outcome combinators -/
+namespace Outcome
+
+theorem bind_eq_ok {α β} {x : Outcome α} {f : α → Outcome β} {r : β} :
+    x.bind f = .ok r ↔ ∃ a, x = .ok a ∧ f a = .ok r := by
+  cases x <;> simp [bind]
+
+theorem foldlM'_cons_ok {α β} (f : β → α → Outcome β) (b : β) (a : α) (as : List α) (r : β) :
+    foldlM' f b (a :: as) = .ok r ↔ ∃ b', f b a = .ok b' ∧ foldlM' f b' as = .ok r := by
+  simp only [foldlM']
+  cases f b a <;> simp
+
+theorem foldlM'_nil_ok {α β} (f : β → α → Outcome β) (b r : β) :
+    foldlM' f b ([] : List α) = .ok r ↔ b = r := by
+  simp [foldlM']
+
+theorem forM'_eq_ok {α} (f : α → Outcome Unit) (l : List α) :
+    forM' f l = .ok () ↔ ∀ a ∈ l, f a = .ok () := by
+  induction l with
+  | nil => simp [forM']
+  | cons a as ih =>
+    simp only [forM']
+    cases h : f a <;> simp [h, ih]
+
+end Outcome
+
+/-! ### association lists -/
+namespace AList
+variable {κ ν : Type} [DecidableEq κ]
+
+theorem get_append (a b : AList κ ν) (k : κ) :
+    get (a ++ b) k = match get a k with | some v => some v | none => get b k := by
+  induction a with
+  | nil => simp [get]
+  | cons e rest ih =>
+    obtain ⟨k', v⟩ := e
+    simp only [List.cons_append, get_cons]
+    by_cases h : k' = k
+    · simp [h]
+    · simp [h, ih]
+
+/-- `extend`: the LAST entry of `es` with key `k` wins, else the old map -/
+theorem get_extend (m : AList κ ν) (es : List (κ × ν)) (k : κ) :
+    get (extend m es) k = match get es.reverse k with | some v => some v | none => get m k := by
+  induction es generalizing m with
+  | nil => simp [extend, get]
+  | cons e rest ih =>
+    have h1 : extend m (e :: rest) = extend (set m e.1 e.2) rest := rfl
+    rw [h1, ih, List.reverse_cons, get_append]
+    cases hr : get rest.reverse k with
+    | some v => rfl
+    | none =>
+      obtain ⟨k', v⟩ := e
+      simp only [get_cons]
+      by_cases h : k' = k
+      · subst h; simp [get_set_self]
+      · have h' : k ≠ k' := fun h2 => h h2.symm
+        simp [h, get_set_ne _ _ h', get]
+
+end AList
+
+/-! ### coin maps -/
+namespace CoinMap
+
+theorem getCoin_insertCoin (m : CoinMap) (id : CoinID) (d : CoinDataHeight) (t : Bool) (k : CoinID) :
+    (m.insertCoin id d t).getCoin k = if k = id then some d else m.getCoin k := by
+  have hc : (m.insertCoin id d t).coins = m.coins.set id d := by
+    simp only [insertCoin]; split <;> rfl
+  simp only [getCoin, hc]
+  by_cases h : k = id
+  · subst h; simp [AList.get_set_self]
+  · simp [h, AList.get_set_ne _ _ h]
+
+theorem coins_removeCoin {m m' : CoinMap} {id : CoinID} {t : Bool} (h : m.removeCoin id t = .ok m') :
+    m'.coins = m.coins.del id := by
+  simp only [removeCoin] at h
+  split at h
+  · split at h
+    · split at h
+      · cases h
+      · cases h; rfl
+    · cases h; rfl
+  · cases h; rfl
+
+theorem getCoin_removeCoin {m m' : CoinMap} {id : CoinID} {t : Bool} (h : m.removeCoin id t = .ok m')
+    (k : CoinID) : m'.getCoin k = if k = id then none else m.getCoin k := by
+  simp only [getCoin, coins_removeCoin h]
+  by_cases hk : k = id
+  · subst hk; simp [AList.get_del_self]
+  · simp [hk, AList.get_del_ne _ hk]
+
+theorem getCoin_removeCoins (t : Bool) (ids : List CoinID) :
+    ∀ (m m' : CoinMap), Outcome.foldlM' (fun (c : CoinMap) id => c.removeCoin id t) m ids = .ok m' →
+      ∀ k, m'.getCoin k = if k ∈ ids then none else m.getCoin k := by
+  induction ids with
+  | nil =>
+    intro m m' h k
+    rw [Outcome.foldlM'_nil_ok] at h
+    subst h; simp
+  | cons id rest ih =>
+    intro m m' h k
+    rw [Outcome.foldlM'_cons_ok] at h
+    obtain ⟨m1, h1, h2⟩ := h
+    rw [ih m1 m' h2 k, getCoin_removeCoin h1 k]
+    by_cases hk : k = id
+    · simp [hk]
+    · simp [hk]
+
+end CoinMap
+
+/-! ### the coins created by a batch -/
+
+/-- the `created` map of `loadRelevantCoins` (identical to `batchCreated` of C02) -/
+def createdOf (height : Nat) (txs : List Tx) : Relevant :=
+  txs.foldl (fun acc tx => acc.extend (outputCoinsFromTx tx height)) []
+
+/-- the ids `createNextState` tries to insert -/
+def outputIds (txs : List Tx) : List CoinID :=
+  txs.flatMap fun tx => (List.range tx.outputs.length).map fun i => { txhash := tx.hash, index := i % 256 }
+
+theorem get_foldl_extend_some {α κ ν : Type} [DecidableEq κ] (F : α → List (κ × ν)) (l : List α) :
+    ∀ (acc : AList κ ν) (k : κ) (c : ν),
+      AList.get (l.foldl (fun acc a => AList.extend acc (F a)) acc) k = some c →
+      AList.get acc k = some c ∨ ∃ a ∈ l, (k, c) ∈ F a := by
+  induction l with
+  | nil => intro acc k c h; exact Or.inl h
+  | cons a rest ih =>
+    intro acc k c h
+    rcases ih _ k c h with h1 | ⟨b, hb, hm⟩
+    · rw [AList.get_extend] at h1
+      cases hr : AList.get (F a).reverse k with
+      | some v =>
+        rw [hr] at h1
+        simp only [Option.some.injEq] at h1; subst h1
+        have := AList.mem_of_get_eq_some hr
+        exact Or.inr ⟨a, List.mem_cons_self, List.mem_reverse.mp this⟩
+      | none => rw [hr] at h1; exact Or.inl h1
+    · exact Or.inr ⟨b, List.mem_cons_of_mem _ hb, hm⟩
+
+theorem mem_outputCoinsFromTx {tx : Tx} {height : Nat} {k : CoinID} {c : CoinDataHeight}
+    (h : (k, c) ∈ outputCoinsFromTx tx height) :
+    ∃ i o, tx.outputs[i]? = some o ∧ k = { txhash := tx.hash, index := i % 256 } ∧ c.height = height ∧
+      c.coinData.covhash ≠ coinDestroy ∧
+      c.coinData = (if o.denom = .newCustom then { o with denom := .custom tx.hash } else o) := by
+  simp only [outputCoinsFromTx, List.mem_filterMap] at h
+  obtain ⟨⟨o, i⟩, hmem, hf⟩ := h
+  rw [List.mem_zipIdx_iff_getElem?] at hmem
+  simp only at hmem hf
+  by_cases hne : (if o.denom = .newCustom then ({ o with denom := .custom tx.hash } : CoinData) else o).covhash
+      ≠ coinDestroy
+  · rw [if_pos hne] at hf
+    simp only [Option.some.injEq, Prod.mk.injEq] at hf
+    obtain ⟨hk, hc⟩ := hf
+    subst hk; subst hc
+    exact ⟨i, o, hmem, rfl, rfl, hne, rfl⟩
+  · rw [if_neg hne] at hf
+    cases hf
+
+theorem createdOf_get_some {height : Nat} {txs : List Tx} {k : CoinID} {c : CoinDataHeight}
+    (h : (createdOf height txs).get k = some c) :
+    ∃ tx ∈ txs, (k, c) ∈ outputCoinsFromTx tx height := by
+  rcases get_foldl_extend_some (fun tx => outputCoinsFromTx tx height) txs [] k c h with h1 | h1
+  · simp [AList.get] at h1
+  · exact h1
+
+theorem createdOf_key_mem_outputIds {height : Nat} {txs : List Tx} {k : CoinID} {c : CoinDataHeight}
+    (h : (createdOf height txs).get k = some c) : k ∈ outputIds txs := by
+  obtain ⟨tx, htx, hm⟩ := createdOf_get_some h
+  obtain ⟨i, o, ho, hk, -⟩ := mem_outputCoinsFromTx hm
+  simp only [outputIds, List.mem_flatMap, List.mem_map, List.mem_range]
+  refine ⟨tx, htx, i, ?_, hk.symm⟩
+  exact (List.getElem?_eq_some_iff.mp ho).1
+
+theorem createdOf_content {height : Nat} {txs : List Tx} {id : CoinID} {c : CoinDataHeight}
+    (hwf : ∀ tx ∈ txs, tx.outputs.length ≤ 256)
+    (h : (createdOf height txs).get id = some c) :
+    c.height = height ∧ c.coinData.covhash ≠ coinDestroy ∧ c.coinData.denom ≠ .newCustom ∧
+    ∃ tx ∈ txs, ∃ o ∈ tx.outputs, id.txhash = tx.hash ∧ tx.outputs[id.index]? = some o ∧
+      c.coinData.value = o.value ∧ c.coinData.covhash = o.covhash ∧ c.coinData.additionalData = o.additionalData ∧
+      c.coinData.denom = (if o.denom = .newCustom then .custom tx.hash else o.denom) := by
+  obtain ⟨tx, htx, hm⟩ := createdOf_get_some h
+  obtain ⟨i, o, ho, hk, hh, hcov, hcd⟩ := mem_outputCoinsFromTx hm
+  have hi : i < tx.outputs.length := (List.getElem?_eq_some_iff.mp ho).1
+  have hmod : i % 256 = i := Nat.mod_eq_of_lt (Nat.lt_of_lt_of_le hi (hwf tx htx))
+  rw [hmod] at hk
+  subst hk
+  refine ⟨hh, hcov, ?_, tx, htx, o, List.mem_of_getElem? ho, rfl, ho, ?_, ?_, ?_, ?_⟩
+  · rw [hcd]; split
+    · simp
+    · assumption
+  · rw [hcd]; split <;> rfl
+  · rw [hcd]; split <;> rfl
+  · rw [hcd]; split <;> rfl
+  · rw [hcd]; split
+    · simp
+    · simp
+
+/-! ### `loadRelevantCoins` -/
+
+/-- one step of `extract_input_coins` -/
+def diskStep (created : Relevant) (coins : CoinMap) (acc : Relevant) (inp : CoinID) : Outcome Relevant :=
+  if created.contains inp then .ok acc
+  else match coins.getCoin inp with
+    | some c => .ok (acc.set inp c)
+    | none => .reject .nonexistentCoin
+
+theorem diskStep_ok {created : Relevant} {coins : CoinMap} {acc acc' : Relevant} {inp : CoinID}
+    (h : diskStep created coins acc inp = .ok acc') :
+    (created.contains inp = true ∧ acc' = acc) ∨
+    (created.get inp = none ∧ ∃ c, coins.getCoin inp = some c ∧ acc' = acc.set inp c) := by
+  simp only [diskStep] at h
+  split at h
+  · rename_i hc; cases h; exact Or.inl ⟨hc, rfl⟩
+  · rename_i hc
+    have hn : created.get inp = none := by
+      simp only [AList.contains] at hc
+      cases hg : created.get inp with
+      | none => rfl
+      | some v => simp [hg] at hc
+    split at h
+    · rename_i c hcoin; cases h; exact Or.inr ⟨hn, c, hcoin, rfl⟩
+    · cases h
+
+theorem diskFold_inv (created : Relevant) (coins : CoinMap) (l : List CoinID) :
+    ∀ (acc disk : Relevant), Outcome.foldlM' (diskStep created coins) acc l = .ok disk →
+      (∀ inp ∈ l, (coins.getCoin inp).isSome ∨ (created.get inp).isSome) ∧
+      (∀ k c, disk.get k = some c → acc.get k = some c ∨ (created.get k = none ∧ coins.getCoin k = some c)) := by
+  induction l with
+  | nil =>
+    intro acc disk h
+    rw [Outcome.foldlM'_nil_ok] at h; subst h
+    exact ⟨by simp, fun k c hk => Or.inl hk⟩
+  | cons inp rest ih =>
+    intro acc disk h
+    rw [Outcome.foldlM'_cons_ok] at h
+    obtain ⟨acc1, h1, h2⟩ := h
+    obtain ⟨i1, i2⟩ := ih acc1 disk h2
+    rcases diskStep_ok h1 with ⟨hc, rfl⟩ | ⟨hn, c0, hcoin, rfl⟩
+    · refine ⟨?_, i2⟩
+      intro x hx
+      rcases List.mem_cons.mp hx with rfl | hx
+      · exact Or.inr hc
+      · exact i1 x hx
+    · refine ⟨?_, ?_⟩
+      · intro x hx
+        rcases List.mem_cons.mp hx with rfl | hx
+        · exact Or.inl (by simp [hcoin])
+        · exact i1 x hx
+      · intro k c hk
+        rcases i2 k c hk with h3 | h3
+        · by_cases hki : k = inp
+          · subst hki
+            rw [AList.get_set_self] at h3
+            simp only [Option.some.injEq] at h3; subst h3
+            exact Or.inr ⟨hn, hcoin⟩
+          · rw [AList.get_set_ne _ _ hki] at h3; exact Or.inl h3
+        · exact Or.inr h3
+
+theorem loadRelevantCoins_eq (s : State) (txs : List Tx) :
+    loadRelevantCoins s txs =
+      if !(txs.all fun tx => tx.isWellFormed && tx.melTotalFits) then .reject .malformedTx else
+      (Outcome.foldlM' (diskStep (createdOf s.height txs) s.coins) [] (txs.flatMap (·.inputs))).bind fun disk =>
+        if (txs.flatMap (·.inputs)).Nodup then .ok ((createdOf s.height txs).extend disk.reverse)
+        else .reject .nonexistentCoin := rfl
+
+/-- everything `loadRelevantCoins` guarantees when it succeeds -/
+theorem loadRelevantCoins_ok {s : State} {txs : List Tx} {rel : Relevant}
+    (h : loadRelevantCoins s txs = .ok rel) :
+    (∀ tx ∈ txs, tx.isWellFormed = true ∧ tx.melTotalFits = true) ∧
+    (txs.flatMap (·.inputs)).Nodup ∧
+    (∀ inp ∈ txs.flatMap (·.inputs), (s.coins.getCoin inp).isSome ∨ ((createdOf s.height txs).get inp).isSome) ∧
+    (∀ k c, (createdOf s.height txs).get k = some c → rel.get k = some c) ∧
+    (∀ k c, (createdOf s.height txs).get k = none → rel.get k = some c → s.coins.getCoin k = some c) := by
+  rw [loadRelevantCoins_eq] at h
+  split at h
+  · cases h
+  · rename_i hwf
+    rw [Outcome.bind_eq_ok] at h
+    obtain ⟨disk, hd, h⟩ := h
+    split at h
+    · rename_i hnd
+      cases h
+      obtain ⟨i1, i2⟩ := diskFold_inv _ _ _ _ _ hd
+      have hwf' : ∀ tx ∈ txs, tx.isWellFormed = true ∧ tx.melTotalFits = true := by
+        simpa using hwf
+      have hdisk : ∀ k c, disk.get k = some c →
+          (createdOf s.height txs).get k = none ∧ s.coins.getCoin k = some c := by
+        intro k c hk
+        rcases i2 k c hk with h3 | h3
+        · simp [AList.get] at h3
+        · exact h3
+      refine ⟨hwf', hnd, i1, ?_, ?_⟩
+      · intro k c hk
+        rw [AList.get_extend, List.reverse_reverse]
+        cases hdk : disk.get k with
+        | none => exact hk
+        | some v => have := (hdisk k v hdk).1; rw [hk] at this; cases this
+      · intro k c hk hr
+        rw [AList.get_extend, List.reverse_reverse] at hr
+        cases hdk : disk.get k with
+        | none => rw [hdk] at hr; simp only at hr; rw [hk] at hr; cases hr
+        | some v =>
+          rw [hdk] at hr; simp only [Option.some.injEq] at hr; subst hr
+          exact (hdisk k v hdk).2
+    · cases h
+
+/-! ### `createNextState` -/
+
+/-- first pass of `createNextState`: insert one output coin, if it is relevant -/
+def insStep (rel : Relevant) (t : Bool) (coins : CoinMap) (id : CoinID) : CoinMap :=
+  match rel.get id with
+  | some cd => coins.insertCoin id cd t
+  | none => coins
+
+theorem getCoin_insStep (rel : Relevant) (t : Bool) (coins : CoinMap) (id k : CoinID) :
+    (insStep rel t coins id).getCoin k =
+      if k = id then (match rel.get k with | some c => some c | none => coins.getCoin k)
+      else coins.getCoin k := by
+  simp only [insStep]
+  by_cases hk : k = id
+  · subst hk
+    cases hr : rel.get k with
+    | none => simp
+    | some c => simp [CoinMap.getCoin_insertCoin]
+  · cases hr : rel.get id with
+    | none => simp [hk]
+    | some c => simp [CoinMap.getCoin_insertCoin, hk]
+
+theorem getCoin_insFold (rel : Relevant) (t : Bool) (L : List CoinID) :
+    ∀ (coins : CoinMap) (k : CoinID), (L.foldl (insStep rel t) coins).getCoin k =
+      if k ∈ L then (match rel.get k with | some c => some c | none => coins.getCoin k)
+      else coins.getCoin k := by
+  induction L with
+  | nil => intro coins k; simp
+  | cons id rest ih =>
+    intro coins k
+    rw [List.foldl_cons, ih, getCoin_insStep]
+    by_cases h1 : k = id
+    · subst h1
+      cases hr : rel.get k <;> simp
+    · by_cases h2 : k ∈ rest <;> simp [h1, h2]
+
+/-- second pass of `createNextState`: one transaction -/
+def nextStep (env : Env) (t : Bool) (st : State) (tx : Tx) : Outcome State :=
+  (if tx.kind = .faucet then handleFaucetTx env st tx else .ok st).bind fun st1 =>
+  (Outcome.foldlM' (fun (coins : CoinMap) id => coins.removeCoin id t) st1.coins tx.inputs).bind fun coins2 =>
+  (tx.baseFee st1.feeMultiplier).bind fun minFee =>
+    if tx.fee < minFee then .reject .insufficientFees
+    else .ok { st1 with coins := coins2,
+                        tips := satAdd128 st1.tips (tx.fee - minFee),
+                        feePool := satAdd128 st1.feePool minFee,
+                        txs := State.insertTx st1.txs tx }
+
+theorem createNextState_eq (env : Env) (s : State) (txs : List Tx) (rel : Relevant) (t : Bool) :
+    createNextState env s txs rel t =
+      Outcome.foldlM' (nextStep env t) { s with coins := (outputIds txs).foldl (insStep rel t) s.coins } txs := by
+  simp only [outputIds, List.foldl_flatMap, List.foldl_map]
+  rfl
+
+def faucetMarker : CoinDataHeight :=
+  { coinData := { denom := .mel, value := 0, additionalData := [], covhash := zeroHash }, height := 0 }
+
+/-- does this transaction insert a faucet de-duplication marker? -/
+def insertsMarker (env : Env) (tx : Tx) : Bool := tx.kind = .faucet && !env.isGrandfathered tx.hash
+
+def markerOf (env : Env) (tx : Tx) : CoinID := { txhash := env.fdp tx.hash, index := 0 }
+
+def markerIdsOf (env : Env) (txs : List Tx) : List CoinID :=
+  (txs.filter fun tx => tx.kind = .faucet && !env.isGrandfathered tx.hash).map
+    fun tx => { txhash := env.fdp tx.hash, index := 0 }
+
+theorem mem_markerIdsOf {env : Env} {txs : List Tx} {k : CoinID} :
+    k ∈ markerIdsOf env txs ↔ ∃ tx ∈ txs, insertsMarker env tx = true ∧ k = markerOf env tx := by
+  simp only [markerIdsOf, List.mem_map, List.mem_filter, insertsMarker, markerOf]
+  constructor
+  · rintro ⟨tx, ⟨h1, h2⟩, rfl⟩; exact ⟨tx, h1, h2, rfl⟩
+  · rintro ⟨tx, h1, h2, rfl⟩; exact ⟨tx, ⟨h1, h2⟩, rfl⟩
+
+theorem getCoin_faucetStep {env : Env} {st st1 : State} {tx : Tx}
+    (h : (if tx.kind = .faucet then handleFaucetTx env st tx else .ok st) = .ok st1) (k : CoinID) :
+    st1.coins.getCoin k =
+      if insertsMarker env tx = true ∧ k = markerOf env tx then some faucetMarker else st.coins.getCoin k := by
+  by_cases hk : tx.kind = .faucet
+  · rw [if_pos hk] at h
+    simp only [handleFaucetTx] at h
+    split at h
+    · cases h
+    · split at h
+      · cases h
+      · split at h
+        · rename_i hb
+          cases h
+          simp only [CoinMap.getCoin_insertCoin, insertsMarker, markerOf, hk, hb, faucetMarker]
+          simp
+        · rename_i hb
+          cases h
+          simp [insertsMarker, hb]
+  · rw [if_neg hk] at h
+    cases h
+    simp [insertsMarker, hk]
+
+theorem getCoin_nextStep {env : Env} {t : Bool} {st st' : State} {tx : Tx}
+    (h : nextStep env t st tx = .ok st') (k : CoinID) :
+    st'.coins.getCoin k =
+      if k ∈ tx.inputs then none
+      else if insertsMarker env tx = true ∧ k = markerOf env tx then some faucetMarker
+      else st.coins.getCoin k := by
+  simp only [nextStep, Outcome.bind_eq_ok] at h
+  obtain ⟨st1, h1, coins2, h2, minFee, -, h4⟩ := h
+  split at h4
+  · cases h4
+  · cases h4
+    simp only
+    rw [CoinMap.getCoin_removeCoins t tx.inputs _ _ h2 k, getCoin_faucetStep h1 k]
+
+theorem getCoin_nextFold (env : Env) (t : Bool) (txs : List Tx) :
+    ∀ (st st' : State), Outcome.foldlM' (nextStep env t) st txs = .ok st' →
+      (∀ m ∈ markerIdsOf env txs, m ∉ txs.flatMap (·.inputs)) →
+      ∀ k, st'.coins.getCoin k =
+        if k ∈ txs.flatMap (·.inputs) then none
+        else if k ∈ markerIdsOf env txs then some faucetMarker
+        else st.coins.getCoin k := by
+  induction txs with
+  | nil =>
+    intro st st' h _ k
+    rw [Outcome.foldlM'_nil_ok] at h; subst h
+    simp [markerIdsOf]
+  | cons tx rest ih =>
+    intro st st' h hm k
+    rw [Outcome.foldlM'_cons_ok] at h
+    obtain ⟨st1, h1, h2⟩ := h
+    have hm' : ∀ m ∈ markerIdsOf env rest, m ∉ rest.flatMap (·.inputs) := by
+      intro m hmm hin
+      have : m ∈ markerIdsOf env (tx :: rest) := by
+        rw [mem_markerIdsOf] at hmm ⊢
+        obtain ⟨a, ha, hb⟩ := hmm
+        exact ⟨a, List.mem_cons_of_mem _ ha, hb⟩
+      exact hm m this (by simp [hin])
+    rw [ih st1 st' h2 hm' k, getCoin_nextStep h1 k]
+    have hmem : k ∈ markerIdsOf env (tx :: rest) ↔
+        (insertsMarker env tx = true ∧ k = markerOf env tx) ∨ k ∈ markerIdsOf env rest := by
+      simp only [mem_markerIdsOf, List.mem_cons, exists_eq_or_imp]
+    have hin : k ∈ (tx :: rest).flatMap (·.inputs) ↔ k ∈ tx.inputs ∨ k ∈ rest.flatMap (·.inputs) := by
+      simp
+    by_cases c1 : k ∈ rest.flatMap (·.inputs)
+    · rw [if_pos c1, if_pos (hin.mpr (Or.inr c1))]
+    · by_cases c2 : k ∈ markerIdsOf env rest
+      · have c3 : k ∉ tx.inputs := by
+          intro hc
+          exact hm k (hmem.mpr (Or.inr c2)) (hin.mpr (Or.inl hc))
+        have c5 : k ∉ (tx :: rest).flatMap (·.inputs) := by
+          rw [hin]; exact fun h => h.elim c3 c1
+        rw [if_neg c1, if_pos c2, if_neg c5, if_pos (hmem.mpr (Or.inr c2))]
+      · rw [if_neg c1, if_neg c2]
+        by_cases c3 : k ∈ tx.inputs
+        · rw [if_pos c3, if_pos (hin.mpr (Or.inl c3))]
+        · have c5 : k ∉ (tx :: rest).flatMap (·.inputs) := by
+            rw [hin]; exact fun h => h.elim c3 c1
+          rw [if_neg c3, if_neg c5]
+          by_cases c4 : insertsMarker env tx = true ∧ k = markerOf env tx
+          · rw [if_pos c4, if_pos (hmem.mpr (Or.inl c4))]
+          · have c6 : k ∉ markerIdsOf env (tx :: rest) := by
+              rw [hmem]; exact fun h => h.elim c4 c2
+            rw [if_neg c4, if_neg c6]
+
+/-! ### `applyBatch` -/
+
+theorem applyBatch_ok {env : Env} {s s' : State} {txs : List Tx} {fb : Header}
+    (h : applyBatch env s txs fb = .ok s') :
+    ∃ rel newStakes next, loadRelevantCoins s txs = .ok rel ∧ loadStakeInfo s txs = .ok newStakes ∧
+      (∀ tx ∈ txs, checkTxValidity env s (lastHeaderOf s fb) tx rel newStakes = .ok ()) ∧
+      createNextState env s txs rel s.tip906 = .ok next ∧ s'.coins = next.coins := by
+  simp only [applyBatch, Outcome.bind_eq_ok] at h
+  obtain ⟨rel, h1, newStakes, h2, u, h3, newSpeed, -, next, h5, h6⟩ := h
+  cases u
+  rw [Outcome.forM'_eq_ok] at h3
+  cases h6
+  exact ⟨rel, newStakes, next, h1, h2, h3, h5, rfl⟩
+
+/-- the exact coin transition of an accepted batch -/
+theorem applyBatch_getCoin {env : Env} {s s' : State} {txs : List Tx} {fb : Header}
+    (h : applyBatch env s txs fb = .ok s')
+    (hm1 : ∀ m ∈ markerIdsOf env txs, m ∉ txs.flatMap (·.inputs))
+    (hm2 : ∀ m ∈ markerIdsOf env txs, (createdOf s.height txs).get m = none) (id : CoinID) :
+    s'.coins.getCoin id =
+      if id ∈ txs.flatMap (·.inputs) then none
+      else match (createdOf s.height txs).get id with
+        | some c => some c
+        | none => if id ∈ markerIdsOf env txs then some faucetMarker else s.coins.getCoin id := by
+  obtain ⟨rel, newStakes, next, h1, -, -, h4, h5⟩ := applyBatch_ok h
+  obtain ⟨-, -, -, r1, r2⟩ := loadRelevantCoins_ok h1
+  rw [createNextState_eq] at h4
+  rw [h5, getCoin_nextFold env _ txs _ _ h4 hm1 id]
+  by_cases c1 : id ∈ txs.flatMap (·.inputs)
+  · rw [if_pos c1, if_pos c1]
+  · rw [if_neg c1, if_neg c1]
+    simp only
+    rw [getCoin_insFold]
+    cases hc : (createdOf s.height txs).get id with
+    | some c =>
+      have c2 : id ∉ markerIdsOf env txs := by
+        intro hmm; have := hm2 id hmm; rw [hc] at this; cases this
+      rw [if_neg c2, if_pos (createdOf_key_mem_outputIds hc), r1 id c hc]
+    | none =>
+      by_cases c2 : id ∈ markerIdsOf env txs
+      · rw [if_pos c2]; simp only [if_pos c2]
+      · rw [if_neg c2]; simp only [if_neg c2]
+        by_cases c3 : id ∈ outputIds txs
+        · rw [if_pos c3]
+          cases hr : rel.get id with
+          | none => rfl
+          | some c => exact (r2 id c hc hr).symm
+        · rw [if_neg c3]
+
+theorem diskStep_cases (created : Relevant) (coins : CoinMap) (acc : Relevant) (a : CoinID) :
+    (∃ acc', diskStep created coins acc a = .ok acc') ∨
+      diskStep created coins acc a = .reject .nonexistentCoin := by
+  simp only [diskStep]
+  split
+  · exact Or.inl ⟨_, rfl⟩
+  · split
+    · exact Or.inl ⟨_, rfl⟩
+    · exact Or.inr rfl
+
+theorem diskFold_missing (created : Relevant) (coins : CoinMap) (id : CoinID)
+    (h1 : coins.getCoin id = none) (h2 : created.get id = none) (l : List CoinID) (hid : id ∈ l) :
+    ∀ acc : Relevant, Outcome.foldlM' (diskStep created coins) acc l = .reject .nonexistentCoin := by
+  induction l with
+  | nil => cases hid
+  | cons a rest ih =>
+    intro acc
+    simp only [Outcome.foldlM']
+    by_cases ha : a = id
+    · subst ha
+      simp [diskStep, AList.contains, h1, h2]
+    · have hid' : id ∈ rest := by
+        rcases List.mem_cons.mp hid with h | h
+        · exact absurd h.symm ha
+        · exact h
+      rcases diskStep_cases created coins acc a with ⟨acc', h⟩ | h
+      · rw [h]; exact ih hid' acc'
+      · rw [h]
+
+theorem applyBatch_missing {env : Env} {s : State} {txs : List Tx} {fb : Header} {id : CoinID}
+    (hid : id ∈ txs.flatMap (·.inputs)) (h1 : s.coins.getCoin id = none)
+    (h2 : (createdOf s.height txs).get id = none) :
+    applyBatch env s txs fb = .reject .malformedTx ∨ applyBatch env s txs fb = .reject .nonexistentCoin := by
+  simp only [applyBatch, loadRelevantCoins_eq]
+  split
+  · exact Or.inl rfl
+  · rw [diskFold_missing _ _ id h1 h2 _ hid]
+    exact Or.inr rfl
+
 end Mel
